@@ -95,6 +95,15 @@ def run_history_shard(prop, seed, shard, of, tier, deadline, *, cases,
             res.counters['constructor_raised'] += 1
         if 'op_exc' in ctx.data:
             res.counters['hands_aborted_by_exception'] += 1
+        if 'query_exc' in ctx.data and not ctx.violations:
+            # the hand could not be played on: a yes/no query (or a read-only
+            # accessor the client uses to choose) raised
+            exc = ctx.data['query_exc']
+            ctx.violate(
+                f'a yes/no query raised {type(exc).__name__}: {exc} '
+                f'[{exc_site(exc)}] after op #{ctx.nevents}; the hand cannot '
+                f'be continued or judged')
+            res.counters['hands_stopped_by_a_raising_query'] += 1
         if after_hand is not None:
             after_hand(ctx, res)
         for v in ctx.violations:
